@@ -284,6 +284,10 @@ def check(prog, rep, tier):
             if not present or len(inc) != 1 or ins or pr[1] is None or strip_epochs(inc[0].recv) != pr[1]:
                 rep.bad("C08.cc-add-present", f"{CC}.add", "increment", "a present key's add does not increment exactly the bin holding its fingerprint", inc[0].where())
                 oka = False
+        if ins and not inc and pr is None:
+            rep.bad("C08.cc-add-present", f"{CC}.add", "insert without a complete look-up", "a new bin is inserted on a path that has not searched both candidate buckets for the key's "
+                    "fingerprint: a key that is already stored gets a second bin, and its additions are split over two counts", ins[0].where())
+            oka = False
         if present and not inc and ins and not any(c.atom[0] == "loop0" for c in p.conds) and not any(c.loops for c in p.conds):
             rep.bad("C08.cc-add-present", f"{CC}.add", "present key inserted again", "a present key is inserted as a new bin instead of being counted", ins[0].where())
             oka = False
